@@ -13,7 +13,7 @@ from crosshair.libimpl.builtinslib import AnySymbolicStr
 ADAPTATIONS = [
     "A1 callable(x) on a symbolic int/float/bool/str/bytes/tuple/list/dict returns False without realising x",
     "A2 getattr/hasattr/setattr builtins with a concrete name on a non-symbolic object run the normal attribute protocol with tracing ON (type(o).__getattribute__ -> __getattr__ fallback; type(o).__setattr__)",
-    "A3 format()/f-string of a symbolic number yields the placeholder '<symbolic>' (message text is outside the claim) unless the harness selects the faithful policy",
+    "A3 format()/repr()/f-string of a symbolic number (repr: also of a symbolic str) yields the placeholder '<symbolic>' (message text is outside the claim) unless the harness selects the faithful policy",
     "A4 crosshair.register_contract.get_contract swallows TypeError for unhashable callables",
     "A5 param._utils._find_pname returns None and param's logger gets a NullHandler (stack walking/logging only)",
     "A6 PYTHONHASHSEED=0 and the search order is seeded from VERIF_SEED",
@@ -62,6 +62,22 @@ def _format(obj, fmt=""):
 
 
 _core._PATCH_REGISTRATIONS[format] = _format
+
+_orig_repr = _core._PATCH_REGISTRATIONS.get(repr)
+
+
+def _repr(obj):
+    # '{val!r}' in param's error messages: same policy as format()
+    with NoTracing():
+        if FORMAT_POLICY[0] == 'placeholder' and isinstance(obj, CrossHairValue):
+            if python_type(obj) in (int, float, bool, str):
+                return "<symbolic>"
+    if _orig_repr is not None:
+        return _orig_repr(obj)
+    return repr(obj)
+
+
+_core._PATCH_REGISTRATIONS[repr] = _repr
 
 # --- A2
 _MISSING = object()
